@@ -481,3 +481,39 @@ pub fn oracle_sha256tree(rng: &mut Rng, n: usize, _tier: &str) -> OracleReport {
 
 #[allow(dead_code)]
 fn unused(_: EvalErr) {}
+
+/// C06 at the operand-size limits: every request of the `op_limits` stream, turned into the program
+/// `(op (q . a0) (q . a1) …)`, evaluated with and without MALACHITE (the other flags as generated)
+pub fn oracle_malachite_limits(rng: &mut Rng, n: usize, tier: &str) -> OracleReport {
+    let mut rep = OracleReport::default();
+    let lines = progs::generate_op_limits(rng, n, tier);
+    for (i, l) in lines.iter().enumerate() {
+        let w: Vec<&str> = l.split(' ').collect();
+        let opcode: u8 = match w[2] { "op_div" => 19, "op_divmod" => 20, "op_mod" => 61, "op_modpow" => 60, _ => 18 };
+        let flags = u32::from_str_radix(w[3], 16).unwrap();
+        if flags & MALACHITE != 0 {
+            continue; // each argument list appears once per flag set; take the ones without the bit
+        }
+        let args = trees::from_hex(w[5]).unwrap();
+        let mut items = vec![];
+        let mut cur = &args;
+        while let T::Pair(a, b) = cur {
+            items.push(quote((**a).clone()));
+            cur = b;
+        }
+        let prog = call(opcode, items);
+        let env = atom(&[]);
+        let a = run_full("chia", flags, 0, &prog, &env, "");
+        let b = run_full("chia", flags | MALACHITE, 0, &prog, &env, "");
+        rep.evaluations += 1;
+        rep.nontrivial += 1;
+        rep.hit(match &a.res { Ok(_) => "ok", Err((k, _)) => k.as_str() });
+        if i < 2 {
+            rep.sample(desc(&prog, &env, flags));
+        }
+        if a != b {
+            rep.fail("malachite_limits", format!("{} without={:?} with={:?}", desc(&prog, &env, flags), a, b));
+        }
+    }
+    rep
+}
